@@ -763,3 +763,420 @@ Proof.
   - intro H. specialize (H (of_string "j") 0%N g_tight (AAdd (ex_rv "EXPRESSION000001") (ANum 1)) (or_introl eq_refl)).
     cbn [ex_rv avars app] in H. inversion H as [|? ? H1 _]. vm_compute in H1. discriminate.
 Qed.
+
+(* ================================================================================================== *)
+(* added from Properties/C05_add.v (2026-10-01)                                              *)
+(* ================================================================================================== *)
+(* C05 (addition)  References into nested dicts, indexed references, bare references inside whole documents. *)
+From Coq Require Import String.
+From Coq Require Import NArith ZArith List Bool Permutation.
+From DictIO Require Import Chars Str Value Scalar KeyPath SDict Layout Lexer TokParser Reader Expr Eval
+     MiscSpec EvalSpec FlatSpec IndexSpec EvalProofs RefTextProofs FlatEngine FlatIndexProofs.
+Import ListNotations.
+
+(* ================================================================================================ *)
+(* Documents: [pdoc] = top-level entries  PDyn x (FInt z) | PDyn x (FExp id layout expression) | PStat x t  with t a
+   static value ([stat]: a scalar without a dollar sign and without the word EXPRESSION -- every integer, boolean, None --,
+   a list of such scalars, a dict with string keys of static values).
+   [psem p]: the flattened document -- every integer declared at any nesting level under its name, every element of a
+   list l under the name  l[j]  ([l ++ idx j]), every expression.  References in expressions are reference names
+   [rname]: a word, possibly followed by index brackets; an expression may be a bare reference [AVar y] to an integer,
+   to an expression or to another bare reference.
+   [pdoc_ok p]: all declared names (all levels) are distinct words, distinct expression ids below 10^6, blanks-only
+   layouts.  [psdict p]: the SDict the parser delivers (C05_nested_reader).                                            *)
+(* ================================================================================================ *)
+
+(* ---- the reader computes the direct recursive evaluation of the flattened document ----------------------------- *)
+Theorem C05_nested_direct_value : forall p lc bc inc, pdoc_ok p -> total_doc (psem p) = true ->
+  exists s', eval_expressions (psdict p lc bc inc) = Some (Ok s') /\
+             sd_expr s' = [] /\ map fst (sd_data s') = map KS (map pname p) /\
+             (forall x v z, In (PDyn x v) p -> denote (psem p) x = Some z -> alookup (KS x) (sd_data s') = Some (Leaf (SInt z))) /\
+             (forall x t, In (PStat x t) p -> alookup (KS x) (sd_data s') = Some t).
+Proof. exact pdoc_value. Qed.
+Print Assumptions C05_nested_direct_value.
+
+(* the whole result *)
+Theorem C05_nested_direct_result : forall p lc bc inc, pdoc_ok p ->
+  (forall x, In x (map fst (psem p)) -> denote (psem p) x <> None) ->
+  eval_expressions (psdict p lc bc inc) = Some (Ok (mkSD (pdata p (denote (psem p))) lc bc inc [])).
+Proof. exact pdoc_direct_value. Qed.
+Print Assumptions C05_nested_direct_result.
+
+Definition ex_v (s : string) : aexp := AVar (of_string s).
+Definition ex_ints (l : list Z) : tree := Lst (map (fun z => Leaf (SInt z)) l).
+Definition ex_gi (n : nat) : nat -> str := fun i => if Nat.eqb i 0 || Nat.eqb i n then [] else [c_sp].
+Definition ex_gb : nat -> str := fun _ => [c_sp].
+
+(* a "$y + $l[1]";  sub { y 4; name pump; deep { z 5; flag true; m (7 9); } }  l (3 5 8);
+   b "$z*$a";  f "$c - $l[0]";  u "$e * $h";  w " $u ";  c $m[1];  n 2;  g $n;  e $c;  h $f;
+   (c: a bare indexed reference; g: a bare reference to an integer; e: a bare reference to a bare reference; h: a bare
+   reference to an expression; w: a bare reference written with blanks; f, u: expressions over names that hold bare
+   references) *)
+Definition ex_pa : pdoc := [ PDyn (of_string "a") (FExp 0 (ex_gi 3) (AAdd (ex_v "y") (ex_v "l[1]"))) ].
+Definition ex_sub : tree :=
+  Dict [(KS (of_string "y"), Leaf (SInt 4)); (KS (of_string "name"), Leaf (SStr (of_string "pump")));
+        (KS (of_string "deep"), Dict [(KS (of_string "z"), Leaf (SInt 5)); (KS (of_string "flag"), Leaf (SBool true));
+                                      (KS (of_string "m"), ex_ints [7; 9]%Z)])].
+Definition ex_pb : pdoc := [ PStat (of_string "sub") ex_sub; PStat (of_string "l") (ex_ints [3; 5; 8]%Z) ].
+Definition ex_pc : pdoc :=
+  [ PDyn (of_string "b") (FExp 1 g_tight (AMul (ex_v "z") (ex_v "a")));
+    PDyn (of_string "f") (FExp 2 (ex_gi 3) (ASub (ex_v "c") (ex_v "l[0]")));
+    PDyn (of_string "u") (FExp 3 (ex_gi 3) (AMul (ex_v "e") (ex_v "h")));
+    PDyn (of_string "w") (FExp 4 ex_gb (ex_v "u"));
+    PDyn (of_string "c") (FExp 5 g_tight (ex_v "m[1]"));
+    PDyn (of_string "n") (FInt 2);
+    PDyn (of_string "g") (FExp 6 g_tight (ex_v "n"));
+    PDyn (of_string "e") (FExp 7 g_tight (ex_v "c"));
+    PDyn (of_string "h") (FExp 8 g_tight (ex_v "f")) ].
+Definition ex_p : pdoc := ex_pa ++ ex_pb ++ ex_pc.
+Ltac ex_p_unfold := unfold ex_p, ex_pa, ex_pb, ex_pc; cbn [app].
+
+Ltac layout_tac :=
+  repeat (constructor;
+          [first [ exact I
+                 | let i := fresh "i" in intro i;
+                   first [ reflexivity
+                         | unfold ex_gi; match goal with |- context [if ?b then _ else _] => destruct b end; reflexivity ] ]|]);
+  constructor.
+Ltac pdoc_ok_tac := apply pdoc_check_items; [vm_compute; reflexivity | layout_tac].
+
+Lemma ex_p_ok : pdoc_ok ex_p.
+Proof. ex_p_unfold. pdoc_ok_tac. Qed.
+
+(* references into nested dicts (y: depth 1, z: depth 2), to list elements (l at top level, m at depth 2), bare references
+   of every kind, forward references *)
+Example C05_nested_direct_value_nonvacuous :
+  pdoc_ok ex_p /\ total_doc (psem ex_p) = true /\
+  map fst (psem ex_p) = map of_string ["a"; "y"; "z"; "m[0]"; "m[1]"; "l[0]"; "l[1]"; "l[2]"; "b"; "f"; "u"; "w"; "c"; "n"; "g"; "e"; "h"]%string /\
+  exists s', eval_expressions (psdict ex_p [] [] []) = Some (Ok s') /\ sd_expr s' = [] /\
+    alookup (KS (of_string "a")) (sd_data s') = Some (Leaf (SInt 9)) /\
+    alookup (KS (of_string "b")) (sd_data s') = Some (Leaf (SInt 45)) /\
+    alookup (KS (of_string "c")) (sd_data s') = Some (Leaf (SInt 9)) /\
+    alookup (KS (of_string "f")) (sd_data s') = Some (Leaf (SInt 6)) /\
+    alookup (KS (of_string "g")) (sd_data s') = Some (Leaf (SInt 2)) /\
+    alookup (KS (of_string "e")) (sd_data s') = Some (Leaf (SInt 9)) /\
+    alookup (KS (of_string "h")) (sd_data s') = Some (Leaf (SInt 6)) /\
+    alookup (KS (of_string "u")) (sd_data s') = Some (Leaf (SInt 54)) /\
+    alookup (KS (of_string "w")) (sd_data s') = Some (Leaf (SInt 54)) /\
+    alookup (KS (of_string "l")) (sd_data s') = Some (ex_ints [3; 5; 8]%Z).
+Proof.
+  assert (Ht : total_doc (psem ex_p) = true) by (vm_compute; reflexivity).
+  refine (conj ex_p_ok (conj Ht (conj _ _))); [vm_compute; reflexivity|].
+  destruct (C05_nested_direct_value ex_p [] [] [] ex_p_ok Ht) as [s' [He [Hx [_ [Hv Hs]]]]].
+  exists s'. split; [exact He|]. split; [exact Hx|].
+  repeat split; first [ eapply Hv; [ex_p_unfold; cbn [In]; tauto | vm_compute; reflexivity]
+                      | apply Hs; ex_p_unfold; cbn [In]; tauto ].
+Qed.
+
+(* the same for the text the real front end produces: parsing the file gives exactly [psdict ex_p] *)
+Example C05_nested_reader :
+  let text := of_string "a ""$y + $l[1]"";
+sub
+{
+    y 4;
+    name pump;
+    deep { z 5; flag true; m (7 9); }
+}
+l (3 5 8);
+b ""$z*$a"";
+f ""$c - $l[0]"";
+u ""$e * $h"";
+w "" $u "";
+c $m[1];
+n 2;
+g $n;
+e $c;
+h $f;
+" in
+  let fs : fsys := [(of_string "/w/root", FNative text)] in
+  (exists pr, parse_unit true (of_string "/w/root") (-1) (FNative text) = Ok pr /\
+              merge_includes fs true (pr_sd pr) (pr_count pr) = Ok (psdict ex_p [] [] [], 8%Z)) /\
+  exists s', read_full fs (of_string "/w/root") true (-1) = Some (Ok (s', 8%Z)) /\
+    alookup (KS (of_string "a")) (sd_data s') = Some (Leaf (SInt 9)) /\
+    alookup (KS (of_string "u")) (sd_data s') = Some (Leaf (SInt 54)).
+Proof.
+  intros text fs.
+  assert (Ht : total_doc (psem ex_p) = true) by (vm_compute; reflexivity).
+  destruct (parse_unit true (of_string "/w/root") (-1) (FNative text)) as [pr|er] eqn:Ep; [|vm_compute in Ep; discriminate].
+  assert (Hm : merge_includes fs true (pr_sd pr) (pr_count pr) = Ok (psdict ex_p [] [] [], 8%Z)).
+  { vm_compute in Ep. inversion Ep; subst pr. vm_compute. reflexivity. }
+  split; [exists pr; split; [reflexivity | exact Hm]|].
+  destruct (C05_nested_direct_value ex_p [] [] [] ex_p_ok Ht) as [s' [He [_ [_ [Hv _]]]]].
+  exists s'. split.
+  - unfold read_full. change (fs_lookup (norm_path (of_string "/w/root")) fs) with (Some (FNative text)).
+    cbv iota beta. rewrite Ep, Hm, He. reflexivity.
+  - split; (eapply Hv; [ex_p_unfold; cbn [In]; tauto | vm_compute; reflexivity]).
+Qed.
+
+(* whatever the order of the table of expressions ([d]: the entries of the flattened document in that order; the parser
+   numbers the quoted expressions of a file first, then the unquoted references) *)
+Theorem C05_nested_direct_value_any_table_order : forall p d lc bc inc, pdoc_ok p -> Permutation (psem p) d ->
+  total_doc (psem p) = true ->
+  exists s', eval_expressions (psdict_ord p d lc bc inc) = Some (Ok s') /\
+             sd_expr s' = [] /\ map fst (sd_data s') = map KS (map pname p) /\
+             (forall x v z, In (PDyn x v) p -> denote (psem p) x = Some z -> alookup (KS x) (sd_data s') = Some (Leaf (SInt z))) /\
+             (forall x t, In (PStat x t) p -> alookup (KS x) (sd_data s') = Some t).
+Proof. exact pdoc_value_ord. Qed.
+Print Assumptions C05_nested_direct_value_any_table_order.
+
+(* g $n;  n 2;  c $m[1];  a "$c + $g";  box { m (7 9); }  -- the unquoted references g and c come first in the file but last
+   in the table (ids 1 and 2; the quoted expression a has id 0) *)
+Definition ex_q : pdoc :=
+  [ PDyn (of_string "g") (FExp 1 g_tight (ex_v "n"));
+    PDyn (of_string "n") (FInt 2);
+    PDyn (of_string "c") (FExp 2 g_tight (ex_v "m[1]"));
+    PDyn (of_string "a") (FExp 0 (ex_gi 3) (AAdd (ex_v "c") (ex_v "g")));
+    PStat (of_string "box") (Dict [(KS (of_string "m"), ex_ints [7; 9]%Z)]) ].
+Definition ex_q_table : fdoc :=
+  [ (of_string "a", FExp 0 (ex_gi 3) (AAdd (ex_v "c") (ex_v "g")));
+    (of_string "g", FExp 1 g_tight (ex_v "n")); (of_string "n", FInt 2); (of_string "c", FExp 2 g_tight (ex_v "m[1]"));
+    (of_string "m[0]", FInt 7); (of_string "m[1]", FInt 9) ].
+
+Example C05_nested_direct_value_any_table_order_nonvacuous :
+  let text := of_string "g $n;
+n 2;
+c $m[1];
+a ""$c + $g"";
+box { m (7 9); }
+" in
+  let fs : fsys := [(of_string "/w/root", FNative text)] in
+  pdoc_ok ex_q /\ Permutation (psem ex_q) ex_q_table /\ total_doc (psem ex_q) = true /\
+  (exists pr, parse_unit true (of_string "/w/root") (-1) (FNative text) = Ok pr /\
+              merge_includes fs true (pr_sd pr) (pr_count pr) = Ok (psdict_ord ex_q ex_q_table [] [] [], 2%Z)) /\
+  map fst (sd_expr (psdict_ord ex_q ex_q_table [] [] [])) = [0; 1; 2]%N /\
+  map fst (sd_expr (psdict ex_q [] [] [])) = [1; 2; 0]%N /\
+  exists s', read_full fs (of_string "/w/root") true (-1) = Some (Ok (s', 2%Z)) /\
+    alookup (KS (of_string "a")) (sd_data s') = Some (Leaf (SInt 11)) /\
+    alookup (KS (of_string "c")) (sd_data s') = Some (Leaf (SInt 9)).
+Proof.
+  intros text fs.
+  assert (Hok : pdoc_ok ex_q) by (unfold ex_q; pdoc_ok_tac).
+  assert (Hp : Permutation (psem ex_q) ex_q_table).
+  { change (psem ex_q) with ([(of_string "g", FExp 1 g_tight (ex_v "n")); (of_string "n", FInt 2);
+                              (of_string "c", FExp 2 g_tight (ex_v "m[1]"))] ++
+                             (of_string "a", FExp 0 (ex_gi 3) (AAdd (ex_v "c") (ex_v "g"))) ::
+                             [(of_string "m[0]", FInt 7); (of_string "m[1]", FInt 9)]).
+    apply Permutation_sym. apply Permutation_cons_app. cbn [app]. apply Permutation_refl. }
+  assert (Ht : total_doc (psem ex_q) = true) by (vm_compute; reflexivity).
+  refine (conj Hok (conj Hp (conj Ht _))).
+  destruct (parse_unit true (of_string "/w/root") (-1) (FNative text)) as [pr|er] eqn:Ep; [|vm_compute in Ep; discriminate].
+  assert (Hm : merge_includes fs true (pr_sd pr) (pr_count pr) = Ok (psdict_ord ex_q ex_q_table [] [] [], 2%Z)).
+  { vm_compute in Ep. inversion Ep; subst pr. vm_compute. reflexivity. }
+  split; [exists pr; split; [reflexivity | exact Hm]|].
+  split; [vm_compute; reflexivity|]. split; [vm_compute; reflexivity|].
+  destruct (C05_nested_direct_value_any_table_order ex_q ex_q_table [] [] [] Hok Hp Ht) as [s' [He [_ [_ [Hv _]]]]].
+  exists s'. split.
+  - unfold read_full. change (fs_lookup (norm_path (of_string "/w/root")) fs) with (Some (FNative text)).
+    cbv iota beta. rewrite Ep, Hm, He. reflexivity.
+  - split; (eapply Hv; [unfold ex_q; cbn [In]; tauto | vm_compute; reflexivity]).
+Qed.
+
+(* ---- (3) the place of a declaration does not matter ---------------------------------------------------------------- *)
+(* integer declarations spread over nested dicts: every expression gets the value it gets in the flattened document
+   (all declarations at top level; [flat_sdict (psem p)] is the SDict of C05_direct_value).  No list elements here:
+   every name of the flattened document is a word *)
+Theorem C05_nested_declaration_independent : forall p lc bc inc, pdoc_ok p -> Forall word_name (map fst (psem p)) ->
+  total_doc (psem p) = true ->
+  exists s s', eval_expressions (psdict p lc bc inc) = Some (Ok s) /\
+               eval_expressions (flat_sdict (psem p) lc bc inc) = Some (Ok s') /\
+               forall x v, In (PDyn x v) p -> alookup (KS x) (sd_data s) = alookup (KS x) (sd_data s').
+Proof. exact nested_declaration_independent. Qed.
+Print Assumptions C05_nested_declaration_independent.
+
+(* a "$y + 1";  sub { y 4; deep { z 5; } }  b "$z*$y";  n 2;  g $n; *)
+Definition ex_pn : pdoc :=
+  [ PDyn (of_string "a") (FExp 0 (ex_gi 3) (AAdd (ex_v "y") (ANum 1)));
+    PStat (of_string "sub") (Dict [(KS (of_string "y"), Leaf (SInt 4));
+                                   (KS (of_string "deep"), Dict [(KS (of_string "z"), Leaf (SInt 5))])]);
+    PDyn (of_string "b") (FExp 1 g_tight (AMul (ex_v "z") (ex_v "y")));
+    PDyn (of_string "n") (FInt 2);
+    PDyn (of_string "g") (FExp 2 g_tight (ex_v "n")) ].
+
+Example C05_nested_declaration_independent_nonvacuous :
+  pdoc_ok ex_pn /\ Forall word_name (map fst (psem ex_pn)) /\ total_doc (psem ex_pn) = true /\
+  (* the flattened document:  a "$y + 1"; y 4; z 5; b "$z*$y"; n 2; g $n; *)
+  psem ex_pn = [ (of_string "a", FExp 0 (ex_gi 3) (AAdd (ex_v "y") (ANum 1))); (of_string "y", FInt 4); (of_string "z", FInt 5);
+                 (of_string "b", FExp 1 g_tight (AMul (ex_v "z") (ex_v "y"))); (of_string "n", FInt 2);
+                 (of_string "g", FExp 2 g_tight (ex_v "n")) ] /\
+  exists s s', eval_expressions (psdict ex_pn [] [] []) = Some (Ok s) /\
+               eval_expressions (flat_sdict (psem ex_pn) [] [] []) = Some (Ok s') /\
+               alookup (KS (of_string "a")) (sd_data s) = alookup (KS (of_string "a")) (sd_data s') /\
+               alookup (KS (of_string "b")) (sd_data s) = alookup (KS (of_string "b")) (sd_data s') /\
+               alookup (KS (of_string "g")) (sd_data s) = alookup (KS (of_string "g")) (sd_data s') /\
+               alookup (KS (of_string "b")) (sd_data s) = Some (Leaf (SInt 20)) /\
+               alookup (KS (of_string "y")) (sd_data s) = None /\
+               alookup (KS (of_string "y")) (sd_data s') = Some (Leaf (SInt 4)).
+Proof.
+  assert (Hok : pdoc_ok ex_pn) by (unfold ex_pn; pdoc_ok_tac).
+  assert (Hw : Forall word_name (map fst (psem ex_pn))).
+  { apply Forall_forall. intros x Hx. apply word_nameb_sound. revert x Hx. apply forallb_forall. vm_compute. reflexivity. }
+  assert (Ht : total_doc (psem ex_pn) = true) by (vm_compute; reflexivity).
+  refine (conj Hok (conj Hw (conj Ht (conj eq_refl _)))).
+  destruct (C05_nested_declaration_independent ex_pn [] [] [] Hok Hw Ht) as [s [s' [He [He' Hv]]]].
+  exists s, s'. split; [exact He|]. split; [exact He'|].
+  split; [eapply Hv; unfold ex_pn; cbn [In]; tauto|]. split; [eapply Hv; unfold ex_pn; cbn [In]; tauto|].
+  split; [eapply Hv; unfold ex_pn; cbn [In]; tauto|].
+  rewrite (C05_nested_direct_result ex_pn [] [] [] Hok (total_doc_spec _ Ht)) in He. inversion He; subst s.
+  assert (Hf : eval_expressions (flat_sdict (psem ex_pn) [] [] []) =
+               Some (Ok (mkSD (pdata (pflat ex_pn) (denote (psem (pflat ex_pn)))) [] [] [] []))).
+  { rewrite <- psdict_pflat. apply C05_nested_direct_result; [apply (pflat_ok ex_pn Hok Hw)|].
+    unfold pflat. rewrite psem_dyns. apply (total_doc_spec _ Ht). }
+  rewrite Hf in He'. inversion He'; subst s'. vm_compute. repeat split; reflexivity.
+Qed.
+
+(* in general: two documents that declare the same names with the same integers / expressions -- at whatever nesting
+   level, as a list element or on its own, in whatever order -- give every expression the same value *)
+Theorem C05_declaration_place_independent : forall p p' lc bc inc, pdoc_ok p -> pdoc_ok p' ->
+  Permutation (psem p) (psem p') -> total_doc (psem p) = true ->
+  exists s s', eval_expressions (psdict p lc bc inc) = Some (Ok s) /\
+               eval_expressions (psdict p' lc bc inc) = Some (Ok s') /\
+               forall x v v', In (PDyn x v) p -> In (PDyn x v') p' ->
+                 alookup (KS x) (sd_data s) = alookup (KS x) (sd_data s').
+Proof. exact place_independent. Qed.
+Print Assumptions C05_declaration_place_independent.
+
+(* ex_p with the expressions first, y now at top level, z and the list m in a dict "box", the list l inside "box/inner" *)
+Definition ex_pb' : pdoc :=
+  [ PDyn (of_string "y") (FInt 4);
+    PStat (of_string "box") (Dict [(KS (of_string "z"), Leaf (SInt 5)); (KS (of_string "m"), ex_ints [7; 9]%Z);
+                                   (KS (of_string "inner"), Dict [(KS (of_string "l"), ex_ints [3; 5; 8]%Z)])]) ].
+Definition ex_p' : pdoc := ex_pc ++ ex_pa ++ ex_pb'.
+
+Example C05_declaration_place_independent_nonvacuous :
+  ex_p = ex_pa ++ ex_pb ++ ex_pc /\ pdoc_ok ex_p /\ pdoc_ok ex_p' /\ Permutation (psem ex_p) (psem ex_p') /\
+  total_doc (psem ex_p) = true /\
+  exists s s', eval_expressions (psdict ex_p [] [] []) = Some (Ok s) /\
+               eval_expressions (psdict ex_p' [] [] []) = Some (Ok s') /\
+               alookup (KS (of_string "a")) (sd_data s) = alookup (KS (of_string "a")) (sd_data s') /\
+               alookup (KS (of_string "b")) (sd_data s) = alookup (KS (of_string "b")) (sd_data s') /\
+               alookup (KS (of_string "f")) (sd_data s) = alookup (KS (of_string "f")) (sd_data s').
+Proof.
+  assert (Hok' : pdoc_ok ex_p') by (unfold ex_p', ex_pa, ex_pb', ex_pc; cbn [app]; pdoc_ok_tac).
+  assert (Hp : Permutation (psem ex_p) (psem ex_p')).
+  { unfold ex_p, ex_p'. rewrite !psem_app.
+    change (psem ex_pb') with (psem ex_pb).
+    eapply Permutation_trans; [apply Permutation_app_comm|]. rewrite <- app_assoc.
+    eapply Permutation_trans; [apply Permutation_app_comm|]. rewrite <- app_assoc. apply Permutation_refl. }
+  assert (Ht : total_doc (psem ex_p) = true) by (vm_compute; reflexivity).
+  refine (conj eq_refl (conj ex_p_ok (conj Hok' (conj Hp (conj Ht _))))).
+  destruct (C05_declaration_place_independent ex_p ex_p' [] [] [] ex_p_ok Hok' Hp Ht) as [s [s' [He [He' Hv]]]].
+  exists s, s'. split; [exact He|]. split; [exact He'|].
+  repeat split; eapply Hv; unfold ex_p, ex_p', ex_pa, ex_pb, ex_pb', ex_pc; cbn [In app]; tauto.
+Qed.
+
+(* ---- (2) indexed references: the addressed list element ------------------------------------------------------------ *)
+(* in the flattened document the name l[j] of a list declared at any nesting level ([sbinds_item it]: the static bindings
+   of the top-level entry it) denotes the j-th element: this is the value an expression "... $l[j] ..." computes with *)
+Theorem C05_index_denotes_element : forall p it l ts j z, pdoc_ok p -> In it p -> In (l, Lst ts) (sbinds_item it) ->
+  nth_error ts j = Some (Leaf (SInt z)) ->
+  denote (psem p) (l ++ idx (N.of_nat j)) = Some z.
+Proof. exact denote_index. Qed.
+Print Assumptions C05_index_denotes_element.
+
+(* ... and an entry that is the bare indexed reference $l[j] holds that element *)
+Theorem C05_indexed_reference : forall p lc bc inc, pdoc_ok p -> total_doc (psem p) = true ->
+  exists s', eval_expressions (psdict p lc bc inc) = Some (Ok s') /\
+    forall x i g it l ts j z, In (PDyn x (FExp i g (AVar (l ++ idx (N.of_nat j))))) p ->
+      In it p -> In (l, Lst ts) (sbinds_item it) -> nth_error ts j = Some (Leaf (SInt z)) ->
+      alookup (KS x) (sd_data s') = Some (Leaf (SInt z)).
+Proof. exact indexed_reference_value. Qed.
+Print Assumptions C05_indexed_reference.
+
+Example C05_indexed_reference_nonvacuous :
+  let sub := PStat (of_string "sub") ex_sub in
+  of_string "m" ++ idx (N.of_nat 1) = of_string "m[1]" /\
+  In sub ex_p /\ In (of_string "m", ex_ints [7; 9]%Z) (sbinds_item sub) /\
+  nth_error [Leaf (SInt 7); Leaf (SInt 9)] 1 = Some (Leaf (SInt 9)) /\
+  denote (psem ex_p) (of_string "m[1]") = Some 9%Z /\
+  denote (psem ex_p) (of_string "l[1]") = Some 5%Z /\
+  exists s', eval_expressions (psdict ex_p [] [] []) = Some (Ok s') /\
+             alookup (KS (of_string "c")) (sd_data s') = Some (Leaf (SInt 9)).
+Proof.
+  intro sub.
+  assert (H0 : of_string "m" ++ idx (N.of_nat 1) = of_string "m[1]") by (vm_compute; reflexivity).
+  assert (H1 : In sub ex_p) by (ex_p_unfold; unfold sub; cbn [In]; tauto).
+  assert (H2 : In (of_string "m", ex_ints [7; 9]%Z) (sbinds_item sub)) by (vm_compute; tauto).
+  assert (H3 : nth_error [Leaf (SInt 7); Leaf (SInt 9)] 1 = Some (Leaf (SInt 9))) by reflexivity.
+  assert (Ht : total_doc (psem ex_p) = true) by (vm_compute; reflexivity).
+  refine (conj H0 (conj H1 (conj H2 (conj H3 (conj _ (conj _ _)))))).
+  - rewrite <- H0. apply (C05_index_denotes_element ex_p sub (of_string "m") _ 1 9%Z ex_p_ok H1 H2 H3).
+  - assert (Hl : In (PStat (of_string "l") (ex_ints [3; 5; 8]%Z)) ex_p) by (ex_p_unfold; cbn [In]; tauto).
+    assert (E : of_string "l" ++ idx (N.of_nat 1) = of_string "l[1]") by (vm_compute; reflexivity). rewrite <- E.
+    apply (C05_index_denotes_element ex_p _ (of_string "l") _ 1 5%Z ex_p_ok Hl (sbinds_top _ _)). reflexivity.
+  - destruct (C05_indexed_reference ex_p [] [] [] ex_p_ok Ht) as [s' [He Hv]]. exists s'. split; [exact He|].
+    apply (Hv (of_string "c") 5%N g_tight sub (of_string "m") [Leaf (SInt 7); Leaf (SInt 9)] 1%nat 9%Z); [|exact H1 | exact H2 | exact H3].
+    rewrite H0. ex_p_unfold. unfold ex_v. cbn [In]. tauto.
+Qed.
+
+(* FINDINGS (the model answers like the library, checked on dictIO: DictReader.read of the texts in the comments).
+   An index that is out of range, or an index on a value that is not a list, is NOT left unresolved: the exception of
+   the subscript is suppressed and the reference resolves to the WHOLE referenced value.  Inside an arithmetic
+   expression the list is then substituted as text and eval raises TypeError (not caught by the library; the model
+   answers "outside": None).                                                                                         *)
+Example C05_index_out_of_range_finding :
+  let rd := fun t => read_full [(of_string "/w/root", FNative (of_string t))] (of_string "/w/root") true (-1) in
+  let data := fun t => match rd t with Some (Ok (s, _)) => Some (sd_data s) | _ => None end in
+  (* l (3 5 8); d $l[5];          ->  d = [3, 5, 8] *)
+  data "l (3 5 8); d $l[5];"%string =
+    Some [(KS (of_string "l"), ex_ints [3; 5; 8]%Z); (KS (of_string "d"), ex_ints [3; 5; 8]%Z)] /\
+  (* q 5; f $q[0]; h "$q[0] + 1";  ->  f = 5, h = 6 *)
+  data "q 5; f $q[0]; h ""$q[0] + 1"";"%string =
+    Some [(KS (of_string "q"), Leaf (SInt 5)); (KS (of_string "f"), Leaf (SInt 5)); (KS (of_string "h"), Leaf (SInt 6))] /\
+  (* l (3 5 8); g "$l[1]+$l[10]";   ->  TypeError: unsupported operand type(s) for +: 'int' and 'list' *)
+  rd "l (3 5 8); g ""$l[1]+$l[10]"";"%string = None /\
+  (* the resolver itself *)
+  resolve_reference [(KS (of_string "l"), ex_ints [3; 5; 8]%Z)] (of_string "$l[5]") = RVal (ex_ints [3; 5; 8]%Z) /\
+  resolve_reference [(KS (of_string "l"), ex_ints [3; 5; 8]%Z)] (of_string "$l[1]") = RVal (Leaf (SInt 5)).
+Proof. vm_compute. repeat split; reflexivity. Qed.
+
+(* ---- (1) bare references inside whole documents --------------------------------------------------------------------- *)
+(* the direct evaluation gives a bare reference "$y" the value of y ... *)
+Theorem C05_denote_bare : forall d x i g y z, NoDup (map fst d) -> In (x, FExp i g (AVar y)) d ->
+  denote d x = Some z -> denote d y = Some z.
+Proof. exact denote_bare. Qed.
+Print Assumptions C05_denote_bare.
+
+(* ... and so does the reader: a bare reference to an integer (declared at any nesting level, or a list element), to an
+   expression, or to another bare reference *)
+Theorem C05_bare_reference : forall p lc bc inc, pdoc_ok p -> total_doc (psem p) = true ->
+  exists s', eval_expressions (psdict p lc bc inc) = Some (Ok s') /\
+    forall x i g y, In (PDyn x (FExp i g (AVar y))) p ->
+      exists z, denote (psem p) y = Some z /\ alookup (KS x) (sd_data s') = Some (Leaf (SInt z)).
+Proof. exact bare_reference_value. Qed.
+Print Assumptions C05_bare_reference.
+
+(* g $n (n an integer),  c $m[1] (a list element),  e $c (c a bare reference),  h $f (f an expression),  w " $u " *)
+Example C05_bare_reference_nonvacuous :
+  pdoc_ok ex_p /\ total_doc (psem ex_p) = true /\
+  exists s', eval_expressions (psdict ex_p [] [] []) = Some (Ok s') /\
+    (exists z, denote (psem ex_p) (of_string "n") = Some z /\ alookup (KS (of_string "g")) (sd_data s') = Some (Leaf (SInt z))) /\
+    (exists z, denote (psem ex_p) (of_string "m[1]") = Some z /\ alookup (KS (of_string "c")) (sd_data s') = Some (Leaf (SInt z))) /\
+    (exists z, denote (psem ex_p) (of_string "c") = Some z /\ alookup (KS (of_string "e")) (sd_data s') = Some (Leaf (SInt z))) /\
+    (exists z, denote (psem ex_p) (of_string "f") = Some z /\ alookup (KS (of_string "h")) (sd_data s') = Some (Leaf (SInt z))) /\
+    (exists z, denote (psem ex_p) (of_string "u") = Some z /\ alookup (KS (of_string "w")) (sd_data s') = Some (Leaf (SInt z))) /\
+    denote (psem ex_p) (of_string "n") = Some 2%Z /\ denote (psem ex_p) (of_string "m[1]") = Some 9%Z /\
+    denote (psem ex_p) (of_string "c") = Some 9%Z /\ denote (psem ex_p) (of_string "f") = Some 6%Z.
+Proof.
+  assert (Ht : total_doc (psem ex_p) = true) by (vm_compute; reflexivity).
+  refine (conj ex_p_ok (conj Ht _)).
+  destruct (C05_bare_reference ex_p [] [] [] ex_p_ok Ht) as [s' [He Hv]]. exists s'. split; [exact He|].
+  split; [apply (Hv (of_string "g") 6%N g_tight (of_string "n")); ex_p_unfold; unfold ex_v; cbn [In]; tauto|].
+  split; [apply (Hv (of_string "c") 5%N g_tight (of_string "m[1]")); ex_p_unfold; unfold ex_v; cbn [In]; tauto|].
+  split; [apply (Hv (of_string "e") 7%N g_tight (of_string "c")); ex_p_unfold; unfold ex_v; cbn [In]; tauto|].
+  split; [apply (Hv (of_string "h") 8%N g_tight (of_string "f")); ex_p_unfold; unfold ex_v; cbn [In]; tauto|].
+  split; [apply (Hv (of_string "w") 4%N ex_gb (of_string "u")); ex_p_unfold; unfold ex_v; cbn [In]; tauto|].
+  repeat split; vm_compute; reflexivity.
+Qed.
+
+(* bare references that never get a value (totality fails): a reference to itself with an index -- the library's
+   own-name test (_value_contains_circular_reference) drops the entry from the variables table --, and two bare
+   references that refer to each other: reading terminates, the texts are kept (the library answers the same) *)
+Example C05_bare_reference_cycles :
+  let rd := fun t => read_full [(of_string "/w/root", FNative (of_string t))] (of_string "/w/root") true (-1) in
+  let data := fun t => match rd t with Some (Ok (s, _)) => Some (sd_data s) | _ => None end in
+  data "a $a[0]; b $a;"%string =
+    Some [(KS (of_string "a"), Leaf (SStr (of_string "$a[0]"))); (KS (of_string "b"), Leaf (SStr (of_string "$a")))] /\
+  data "a $b; b $a; c ""$a + 1"";"%string =
+    Some [(KS (of_string "a"), Leaf (SStr (of_string "$b"))); (KS (of_string "b"), Leaf (SStr (of_string "$a")));
+          (KS (of_string "c"), Leaf (SStr (of_string "$a + 1")))].
+Proof. vm_compute. split; reflexivity. Qed.
